@@ -19,7 +19,8 @@ from vlib import core, build, pairlib as pl
 REL, ABS = 2e-5, 1e-9
 KINDS = [("general", "general"), ("on", "general"), ("general", "on"), ("on", "on"), ("axis", "plane"), ("plane", "axis"), ("axis", "axis"),
          ("near", "general"), ("general", "near"), ("near", "on"), ("zaxis", "zaxis"), ("on", "zaxis"),
-         ("nearz", "general"), ("nearz", "nearz"), ("plane", "nearaxis"), ("nearz", "on")]
+         ("nearz", "general"), ("nearz", "nearz"), ("plane", "nearaxis"), ("nearz", "on"),
+         ("general", "zplane"), ("zplane", "general"), ("zplane", "zplane")]
 # counterfactuals tried in this order; the first that brings the block within tolerance names the finding(s)
 ATTRIBUTION = [
     ("tailcut-left-end", "no-tail-cut"),
